@@ -361,3 +361,83 @@ Proof.
   intros i j Hi Hj N.
   destruct i as [|[|[|i]]]; destruct j as [|[|[|j]]]; try lia; cbn; reflexivity.
 Qed.
+
+(* ------------------------------------------------------------------------------------------------------------ *)
+(* the enumeration order is Python's: itertools.permutations of a sorted input yields the permutations in          *)
+(* strictly increasing lexicographic order; together with perms_sound / perms_complete this determines `perms n`.  *)
+(* ------------------------------------------------------------------------------------------------------------ *)
+From Coq Require Import Sorted.
+
+Inductive lex_lt : list nat -> list nat -> Prop :=
+| lex_nil : forall y l, lex_lt [] (y :: l)
+| lex_head : forall x y l l', (x < y)%nat -> lex_lt (x :: l) (y :: l')
+| lex_tail : forall x l l', lex_lt l l' -> lex_lt (x :: l) (x :: l').
+
+Lemma StronglySorted_app {A} (R : A -> A -> Prop) l1 l2 :
+  StronglySorted R l1 -> StronglySorted R l2 -> (forall a b, In a l1 -> In b l2 -> R a b) -> StronglySorted R (l1 ++ l2).
+Proof.
+  induction l1 as [|x l1 IH]; intros S1 S2 H; cbn; auto.
+  inversion S1; subst. constructor.
+  - apply IH; auto. intros a b Ha Hb. apply H; auto. now right.
+  - apply Forall_app. split; auto. apply Forall_forall. intros b Hb. apply H; auto. now left.
+Qed.
+
+Lemma StronglySorted_map {A B} (RA : A -> A -> Prop) (RB : B -> B -> Prop) (g : A -> B) l :
+  (forall a a', RA a a' -> RB (g a) (g a')) -> StronglySorted RA l -> StronglySorted RB (map g l).
+Proof.
+  intros Hg. induction 1; cbn; constructor; auto.
+  apply Forall_forall. intros b Hb. apply in_map_iff in Hb as (a' & <- & Ha'). apply Hg.
+  rewrite Forall_forall in H0. auto.
+Qed.
+
+Lemma flat_map_sorted {A B} (RA : A -> A -> Prop) (RB : B -> B -> Prop) (g : A -> list B) L :
+  StronglySorted RA L -> (forall a, In a L -> StronglySorted RB (g a)) ->
+  (forall a a' b b', RA a a' -> In b (g a) -> In b' (g a') -> RB b b') -> StronglySorted RB (flat_map g L).
+Proof.
+  intros HS Hg Hc. induction HS as [|a L HS IH HF]; cbn; [constructor|].
+  apply StronglySorted_app.
+  - apply Hg. now left.
+  - apply IH. intros a' Ha'. apply Hg. now right.
+  - intros b b' Hb Hb'. apply in_flat_map in Hb' as (a' & Ha' & Hb'). rewrite Forall_forall in HF.
+    eapply Hc; eauto.
+Qed.
+
+Lemma selects_sorted : forall l, StronglySorted lt l ->
+  StronglySorted (fun p q => (fst p < fst q)%nat) (selects l) /\
+  forall y r, In (y, r) (selects l) -> StronglySorted lt r.
+Proof.
+  induction l as [|x t IH]; intros HS; cbn; [split; [constructor | intros ? ? []]|].
+  inversion HS as [|? ? HSt HF]; subst. destruct (IH HSt) as (IH1 & IH2). split.
+  - constructor.
+    + apply (StronglySorted_map (fun p q => (fst p < fst q)%nat)); auto.
+    + apply Forall_forall. intros q Hq. apply in_map_iff in Hq as ([y r] & <- & Hq). cbn.
+      apply selects_sound in Hq. rewrite Forall_forall in HF. apply HF.
+      eapply Permutation_in; [symmetry; exact Hq | now left].
+  - intros y r [E|H].
+    + inversion E; subst; auto.
+    + apply in_map_iff in H as ([y' r'] & E & H). cbn in E. inversion E; subst.
+      constructor; [eapply IH2; eauto|].
+      apply selects_sound in H. rewrite Forall_forall in *. intros z Hz. apply HF.
+      eapply Permutation_in; [symmetry; exact H | now right].
+Qed.
+
+Lemma perms_fuel_sorted : forall f l, length l = f -> StronglySorted lt l -> StronglySorted lex_lt (perms_fuel f l).
+Proof.
+  induction f as [|f IH]; intros l HL HS; cbn; [repeat constructor|].
+  destruct (selects_sorted l HS) as (S1 & S2).
+  apply (flat_map_sorted (fun p q => (fst p < fst q)%nat)); auto.
+  - intros [y r] Ha. cbn. apply (StronglySorted_map lex_lt); [intros; now apply lex_tail|].
+    apply IH; [|eapply S2; eauto].
+    apply selects_sound, Permutation_length in Ha. cbn in Ha. lia.
+  - intros [y r] [y' r'] b b' Hlt Hb Hb'. cbn in *.
+    apply in_map_iff in Hb as (? & <- & _). apply in_map_iff in Hb' as (? & <- & _). now apply lex_head.
+Qed.
+
+Lemma seq_sorted : forall n a, StronglySorted lt (seq a n).
+Proof.
+  induction n; intros a; cbn; constructor; auto.
+  apply Forall_forall. intros x Hx. apply in_seq in Hx. lia.
+Qed.
+
+Theorem perms_lex_sorted : forall n, StronglySorted lex_lt (perms n).
+Proof. intros n. apply perms_fuel_sorted; [apply seq_length | apply seq_sorted]. Qed.
